@@ -46,7 +46,7 @@ from calmjs.parse.unicode_chars import (
 # any character that may be part of an identifier name, keyword or number
 _word = (
     r'(?:[\w$]|' + LETTER + r'|' + DIGIT + r'|' + COMBINING_MARK + r'|' +
-    CONNECTOR_PUNCTUATION + r')')
+    CONNECTOR_PUNCTUATION + r'|[\u200c\u200d])')
 # a '/' followed by the '/' of a regex literal would start a line comment
 word = re.compile(_word)
 required_space = re.compile(
